@@ -34,6 +34,9 @@ type c07Prog struct {
 	Answer map[string]bool // tasks to answer ("*" = all)
 	Signal string          // signal to deliver on ActiveListening ("" = none)
 	Timer  bool            // uses the mock clock (never advanced)
+	// ErrAns: how a task is answered with an error: "pending" = DoWithErrHandle whose decision never comes,
+	// "retry" = handler answers retry(1) each time, "err" = DoWithErr (no handler)
+	ErrAns map[string]string
 }
 
 func c07Progs() map[string]*c07Prog {
@@ -135,6 +138,15 @@ func c07Progs() map[string]*c07Prog {
 		g.Connect(tx, ex, nil)
 		out["boundary-armed"] = &c07Prog{G: g, Answer: map[string]bool{}}
 	}
+	// error answers: decision of the error handler still pending / retry loop / plain error
+	{
+		g := gen.Lower("p", gen.Seq(gen.T(), gen.T()))
+		out["errhandler-pending"] = &c07Prog{G: g, Answer: all, ErrAns: map[string]string{"t1": "pending"}}
+		out["errhandler-retry"] = &c07Prog{G: g, Answer: all, ErrAns: map[string]string{"t1": "retry", "t2": "retry"}}
+		out["err-plain"] = &c07Prog{G: g, Answer: all, ErrAns: map[string]string{"t1": "err"}}
+		g2 := gen.Lower("p", gen.Seq(gen.T(), &gen.Block{Kind: "and", Default: -1, Kids: []*gen.Block{gen.T(), gen.T()}}, gen.T()))
+		out["errhandler-pending-parallel"] = &c07Prog{G: g2, Answer: all, ErrAns: map[string]string{"t2": "pending", "t3": "retry"}}
+	}
 	// two start events
 	{
 		g := gen.NewGraph("p")
@@ -233,7 +245,19 @@ func c07Run(c *c07Case, env *fw.Env, v *fw.V) {
 			}
 			if p.Answer["*"] || p.Answer[e.Node] {
 				for _, r := range in.Pending() {
-					if r.N == e.Req {
+					if r.N != e.Req {
+						continue
+					}
+					switch p.ErrAns[e.Node] {
+					case "pending":
+						in.Answer(r, bpmn.DoWithErrHandle(fmt.Errorf("boom"), make(chan bpmn.ErrHandler)))
+					case "retry":
+						ch := make(chan bpmn.ErrHandler, 1)
+						ch <- bpmn.ErrHandler{Mode: bpmn.RetryMode, Retries: 1}
+						in.Answer(r, bpmn.DoWithErrHandle(fmt.Errorf("boom"), ch))
+					case "err":
+						in.Answer(r, bpmn.DoWithErr(fmt.Errorf("boom")))
+					default:
 						in.Answer(r, bpmn.DoWithResults(map[string]any{"cnt": int(n)}))
 					}
 				}
@@ -366,7 +390,7 @@ func init() {
 			v.Nontrivial = true
 			return v
 		},
-		Rule:        "corpus of programs covering every node kind (pending task, half-full parallel / inclusive join, exclusive gateway in a loop, listening and fired catch event, armed event-based gateway, armed mock-clock timer, running / completed / nested sub-process, armed boundary listener, two start events) x cancellation point k = number of traces received before cancel() (0..70 strided in quick, all in thorough; beyond the run's length = at the resting state) x hooks off / 0.5; one process per case; after cancel: goroutine census by label at the quiescent point (leaks, blocked waiters), spin detection, tracer/subscriber closure, context of late task requests; distinct = descriptor hash, all non-trivial (an instance is cancelled in every case)",
+		Rule:        "corpus of programs covering every node kind (pending task, half-full parallel / inclusive join, exclusive gateway in a loop, listening and fired catch event, armed event-based gateway, armed mock-clock timer, running / completed / nested sub-process, armed boundary listener, two start events, error answers whose handler decision is pending / retries / plain) x cancellation point k = number of traces received before cancel() (0..70 strided in quick, all in thorough; beyond the run's length = at the resting state) x hooks off / 0.5; one process per case; after cancel: goroutine census by label at the quiescent point (leaks, blocked waiters), spin detection, tracer/subscriber closure, context of late task requests; distinct = descriptor hash, all non-trivial (an instance is cancelled in every case)",
 		WatchdogSec: 60,
 		Assumptions: []string{"'promptly' is restated as 'by the quiescent point after cancel() returned'", "the context given to WithContext and StartAll is the same one"},
 	})
